@@ -171,14 +171,17 @@ def to_trace(case, result):
 class PBatch:
     """P (Trace_Links) over many recorded executions in as few TLC runs as possible."""
 
-    def __init__(self, wd, enabled):
+    def __init__(self, wd, enabled, max_rejects=12):
         self.wd, self.enabled, self.n, self.events = wd, enabled, 0, 0
+        self.rejects_left = max_rejects
 
     def validate(self, items):
-        """items: [(case, result)] -> [dict(accepted, kf:set, detail)] in order"""
+        """items: [(case, result)] -> [dict(accepted, kf:set, detail) | None] in order.
+        After max_rejects rejections the remaining executions are left unexamined (None): the verdict of
+        the run is already exit 1 and every further rejection costs one more TLC run."""
         verdicts = [None] * len(items)
         start = 0
-        while start < len(items):
+        while start < len(items) and self.rejects_left > 0:
             evs, bounds = [], []
             for c, r in items[start:]:
                 t = to_trace(c, r)
@@ -206,6 +209,7 @@ class PBatch:
                                      "detail": "P (Trace_Links) rejects the recorded history at step %d: %s" % (
                                          m - lo - 1, json.dumps(evs[m]))}
             start += bad + 1
+            self.rejects_left -= 1
         return verdicts
 
 
@@ -258,6 +262,9 @@ def run_group(out, tag, cases, wd, pb, openf, stats, findings_text, sample_every
         capped.append(((c, r), w))
     verdicts = pb.validate([x[0] for x in capped])
     for ((c, r), w), v in zip(capped, verdicts):
+        if v is None:
+            stats["unexamined"] += 1
+            continue
         stats["p_validated"] += 1
         if v["accepted"]:
             if v["kf"]:
@@ -277,7 +284,7 @@ def run_group(out, tag, cases, wd, pb, openf, stats, findings_text, sample_every
             elif w[0] == "excused":
                 stats["conform"] += 1
                 if not v["kf"]:
-                    out.notes.append("note: case %s conforms to M with excuses %s but P needed none" % (c["id"], sorted(w[2])))
+                    stats["excused_without_deviation"] += 1   # e.g. the deviant step was not snapshotted
         else:
             stats["rejected"] += 1
             out.violation("%s: %s case %s: %s" % (
@@ -313,11 +320,11 @@ def run(tier, out):
     # ---- B3 + graph dumps, in parallel (<= 4 TLC workers in total)
     jobs = {}
     big_k = (3, 2) if quick else (3, 3)
-    with cf.ThreadPoolExecutor(max_workers=4 if quick else 2) as ex:
-        jobs["dumpK"] = ex.submit(job_check, wd, "dumpK", consts("K", 2, 2, variant, needed), True)
-        jobs["dumpW"] = ex.submit(job_check, wd, "dumpW", consts("W", 2, 2, variant, needed), True)
+    with cf.ThreadPoolExecutor(max_workers=3 if quick else 2) as ex:
         jobs["bigK"] = ex.submit(job_check, wd, "bigK", consts("K", big_k[0], big_k[1], variant, needed), False,
-                                 1 if quick else 2, False, False)
+                                 2, False, False)
+        jobs["dumpW"] = ex.submit(job_check, wd, "dumpW", consts("W", 2, 2, variant, needed), True)
+        jobs["dumpK"] = ex.submit(job_check, wd, "dumpK", consts("K", 2, 2, variant, needed), True)
         jobs["dumpK0"] = ex.submit(job_check, wd, "dumpK0", consts("K", 2, 2, variant, needed, agg=False), True)
         jobs["simW"] = ex.submit(job_sim, wd, "simW", consts("W", 3, 3, variant, needed), 25 if quick else 400,
                                  24 if quick else 40, core.seed())
@@ -373,8 +380,8 @@ def run(tier, out):
 
     # ---- B1/B2: replay
     pb = PBatch(wd, openf)
-    stats = dict(cases=0, steps=0, conform=0, drift=0, rejected=0, known=0, p_validated=0, excused_by_model=0,
-                 excused_cap=60 if quick else 400, kf_hits={}, kf_samples={})
+    stats = dict(unexamined=0, excused_without_deviation=0, cases=0, steps=0, conform=0, drift=0, rejected=0, known=0, p_validated=0, excused_by_model=0,
+                 excused_cap=150 if quick else 1500, kf_hits={}, kf_samples={})
     graph_edges = 0
     for key, level, agg in (("dumpK", "K", True), ("dumpK0", "K", False), ("dumpW", "W", True)):
         r = R[key]
@@ -386,7 +393,7 @@ def run(tier, out):
         cases = mk_cases(key, cfg, paths)
         sp = [sparse_variant(p, 2, rng) for p in rng.sample(paths, min(len(paths), 200 if quick else 3000))]
         cases += mk_cases(key + "s", cfg, sp)
-        run_group(out, key, cases, wd, pb, openf, stats, findings_text)
+        run_group(out, key, cases, wd, pb, openf, stats, findings_text, 20 if quick else 10)
         core.log("[C20] %s: %d states %d edges -> %d cases; so far conform=%d drift=%d rejected=%d known=%d" % (
             key, r.distinct, g.n_edges, len(cases), stats["conform"], stats["drift"], stats["rejected"], stats["known"]))
         if key == "dumpW":
@@ -405,7 +412,7 @@ def run(tier, out):
         uniq = uniq[: 400 if quick else 6000]
         cfg = {"level": level, "nl": 3, "nr": 3, "agg": True}
         cases = mk_cases(key, cfg, uniq) + mk_cases(key + "s", cfg, [sparse_variant(p, 3, rng) for p in uniq[: len(uniq) // 2]])
-        run_group(out, key, cases, wd, pb, openf, stats, findings_text)
+        run_group(out, key, cases, wd, pb, openf, stats, findings_text, 20 if quick else 10)
         core.log("[C20] %s: %d simulated behaviours (3x3) -> %d cases; so far conform=%d drift=%d rejected=%d known=%d" % (
             key, len(uniq), len(cases), stats["conform"], stats["drift"], stats["rejected"], stats["known"]))
 
@@ -418,7 +425,7 @@ def run(tier, out):
     out.add(states=states, transitions=transitions,
             traces_validated_against_impl=stats["cases"],
             replayed_calls=stats["steps"], conform_to_M=stats["conform"], model_drift=stats["drift"],
-            p_rejected=stats["rejected"], p_validated_by_tlc=stats["p_validated"], p_trace_events=pb.events,
+            p_rejected=stats["rejected"], unexamined_after_reject_cap=stats["unexamined"], p_validated_by_tlc=stats["p_validated"], p_trace_events=pb.events,
             p_tlc_runs=pb.n, excused_accepted_by_model_equivalence=stats["excused_by_model"],
             graph_edges_replayed=graph_edges, known_finding_hits=stats["kf_hits"], known_finding_samples=stats["kf_samples"],
             model_variant=variant, tlc=tlc_stats,
